@@ -308,6 +308,7 @@ class EventBus:
     _is_running: bool = False
     _runloop_task: asyncio.Task[None] | None = None
     _on_idle: asyncio.Event | None = None
+    _events_in_flight: int = 0  # events this bus is processing right now, whether or not they are still in event_history
 
     def __init__(
         self,
@@ -895,7 +896,7 @@ class EventBus:
             await asyncio.sleep(0)  # Yield to event loop
 
             # Double-check we're truly idle - if new events came in, wait again
-            while not self._on_idle.is_set() or self.events_started or self.events_pending:
+            while not self._on_idle.is_set() or self.events_started or self.events_pending or self._events_in_flight:
                 if timeout is not None:
                     elapsed = asyncio.get_event_loop().time() - start_time
                     remaining_timeout = max(0, timeout - elapsed)
@@ -921,7 +922,7 @@ class EventBus:
                     _processed_event = await self.step()
                     # Check if we should set idle state after processing
                     if self._on_idle and self.event_queue:
-                        if not (self.events_pending or self.events_started or self.event_queue.qsize()):
+                        if not (self.events_pending or self.events_started or self.event_queue.qsize() or self._events_in_flight):
                             self._on_idle.set()
                 except QueueShutDown:
                     # Queue was shut down, exit cleanly
@@ -972,7 +973,7 @@ class EventBus:
                 wait_for_queued_event.cancel()
 
                 # Check if we're idle, if so, set the idle flag
-                if not (self.events_pending or self.events_started or self.event_queue.qsize()):
+                if not (self.events_pending or self.events_started or self.event_queue.qsize() or self._events_in_flight):
                     self._on_idle.set()
                 return False
 
@@ -1037,6 +1038,15 @@ class EventBus:
 
     async def process_event(self, event: 'BaseEvent[Any]', timeout: float | None = None) -> None:
         """Process a single event (assumes lock is already held)"""
+        # A small max_history_size can evict an event from event_history while it is still being processed here;
+        # count it separately so that the bus does not look idle meanwhile
+        self._events_in_flight += 1
+        try:
+            await self._process_event(event, timeout=timeout)
+        finally:
+            self._events_in_flight -= 1
+
+    async def _process_event(self, event: 'BaseEvent[Any]', timeout: float | None = None) -> None:
         # Get applicable handlers
         applicable_handlers = self._get_applicable_handlers(event)
 
